@@ -500,8 +500,11 @@ def scn_real(ctx):
         os.environ["PYTHONHASHSEED"] = child_hash
         try:
             if name == "distributed":
+                import logging
+
                 from dask.distributed import Client
 
+                logging.getLogger("distributed").setLevel(logging.CRITICAL)  # a poisoned event is logged by the worker otherwise
                 client = Client(processes=False, n_workers=1, threads_per_worker=nw, dashboard_address=None)
                 try:
                     try:
